@@ -1,6 +1,7 @@
 import MsiProofs.Props.C03
 import MsiProofs.Lemmas.RefineLoad
 import MsiProofs.Lemmas.GlobalInv
+import MsiProofs.Lemmas.GlobalInvUpd
 /-
 C03, state level — `Insert::exec` and `Delete::exec` refine the relational insert and delete on
 the package state: what the new state reads as the table's rows is, as values, what the
@@ -34,5 +35,15 @@ def write_read := @MsiProofs.RowsOk.write_read
 every other table reads as, and the invariant, intact; a refused one changes nothing at all -/
 def history_inv := @MsiProofs.GlobalInv.history_inv
 def op_inv := @MsiProofs.GlobalInv.op_inv
+
+
+/-- **`Update::exec`, then read the table**: the new state reads the table as a re-ordering of rows
+that are, as values, the old rows with the assignments applied to exactly the planned rows; the
+accounting keeps its slack; every other cell keeps its value; no other stream is touched -/
+def update_then_load := @MsiProofs.RefineUpdate.update_then_load
+/-- one assignment to one cell: release, intern, replace -/
+def assign_spec := @MsiProofs.RefineUpdate.assign_spec
+/-- **every history of inserts, updates and deletes keeps the package invariant** -/
+def dml_history_inv := @MsiProofs.GlobalInvUpd.history_inv
 
 end MsiProofs.C03
